@@ -1,3 +1,124 @@
 package main
 
-func raceResults(scratch string, p plan, seed int64) []result { return nil }
+import (
+	"fmt"
+	"io/ioutil"
+	"path/filepath"
+	"sort"
+	"strings"
+)
+
+// raceResults turns the race detector's log files into pseudo results: one violated result per
+// distinct report signature (pair of innermost kubebrain functions, line numbers stripped).
+// Reports with no kubebrain frame on either side (TiKV mock internals, harness code) are listed
+// in evidence but do not decide the property.
+func raceResults(scratch string, p plan, seed int64) []result {
+	files, _ := filepath.Glob(filepath.Join(scratch, "race.log*"))
+	type rep struct {
+		sig   string
+		text  string
+		kb    bool
+		count int
+	}
+	reps := map[string]*rep{}
+	total := 0
+	for _, f := range files {
+		b, err := ioutil.ReadFile(f)
+		if err != nil {
+			continue
+		}
+		for _, blk := range strings.Split(string(b), "==================") {
+			if !strings.Contains(blk, "WARNING: DATA RACE") {
+				continue
+			}
+			total++
+			stacks := accessStacks(blk)
+			var inner []string
+			kb := false
+			harnessTop := false
+			for _, st := range stacks {
+				fn := ""
+				for _, fr := range st {
+					if strings.HasPrefix(fr, "github.com/kubewharf/kubebrain/") {
+						fn = fr
+						break
+					}
+				}
+				if len(st) > 0 && strings.HasPrefix(st[0], "verif/") {
+					harnessTop = true
+				}
+				if fn != "" {
+					kb = true
+				} else if len(st) > 0 {
+					fn = st[0]
+				}
+				inner = append(inner, fn)
+			}
+			sort.Strings(inner)
+			sig := strings.Join(inner, " || ")
+			r := reps[sig]
+			if r == nil {
+				r = &rep{sig: sig, text: blk, kb: kb && !harnessTop}
+				reps[sig] = r
+			}
+			r.count++
+		}
+	}
+	var out []result
+	idx := p.NCases
+	var sigs []string
+	for s := range reps {
+		sigs = append(sigs, s)
+	}
+	sort.Strings(sigs)
+	outside := []string{}
+	for _, s := range sigs {
+		r := reps[s]
+		if !r.kb {
+			outside = append(outside, fmt.Sprintf("%s (x%d)", r.sig, r.count))
+			continue
+		}
+		text := r.text
+		if len(text) > 8000 {
+			text = text[:8000]
+		}
+		out = append(out, result{Case: idx, Name: "race-report", Verdict: "violated",
+			Violations: []violation{{Sig: "C19 data-race " + r.sig, Detail: fmt.Sprintf("the race detector reported this pair %d time(s) in this run", r.count),
+				Witness: map[string]interface{}{"report": text}}},
+			Stats: map[string]int64{"race_reports_in_kubebrain_code": int64(r.count)}})
+		idx++
+	}
+	out = append(out, result{Case: idx, Name: "race-log-summary", Verdict: "held",
+		Stats: map[string]int64{"race_report_blocks_total": int64(total), "race_log_files": int64(len(files))},
+		Sets:  map[string][]string{"race_reports_outside_kubebrain": outside}})
+	return out
+}
+
+// accessStacks returns the two access stacks of a report as lists of function names.
+func accessStacks(blk string) [][]string {
+	var stacks [][]string
+	var cur []string
+	in := false
+	for _, l := range strings.Split(blk, "\n") {
+		t := strings.TrimSpace(l)
+		switch {
+		case strings.HasPrefix(t, "Read at") || strings.HasPrefix(t, "Write at") || strings.HasPrefix(t, "Previous read at") || strings.HasPrefix(t, "Previous write at") ||
+			strings.HasPrefix(t, "Atomic read at") || strings.HasPrefix(t, "Atomic write at") || strings.HasPrefix(t, "Previous atomic"):
+			in = true
+			cur = nil
+		case t == "" && in:
+			stacks = append(stacks, cur)
+			in = false
+		case in && strings.HasSuffix(t, ")") && !strings.Contains(t, " +0x") && !strings.HasPrefix(t, "/"):
+			fn := t
+			if i := strings.LastIndex(fn, "("); i > 0 {
+				fn = fn[:i]
+			}
+			cur = append(cur, fn)
+		}
+	}
+	if in {
+		stacks = append(stacks, cur)
+	}
+	return stacks
+}
